@@ -261,14 +261,21 @@ def observe_arith(fx, np, props, op, tx, ty, cxs, cys, route='operator', sizing=
         return dict(base, k='error', err=type(ex).__name__, msg=str(ex)[:200], cx=[wint(c) for c in cxs[:3]], cy=[wint(c) for c in cys[:3]])
 
 
-def observe_const(fx, np, props, op, tx, cxs, const, side, ois, csizing, xmodes, method='raw', extra=None, history=False):
+def observe_const(fx, np, props, op, tx, cxs, const, side, ois, csizing, xmodes, method='raw', extra=None, history=False, ctype=None):
     """x op const / const op x with a Python-number constant (exact dyadic given as Fraction)."""
     import fractions
     xm = xmodes
     cval = float(const) if const.denominator != 1 else int(const)
+    if ctype:           # the constant is carried by a NumPy scalar of a (narrow) type; only on the right-hand side / in-place spelling
+        tp = getattr(np, ctype)
+        if side == 'left' or (np.dtype(tp).kind in 'iu' and (const.denominator != 1 or not (np.iinfo(tp).min <= int(const) <= np.iinfo(tp).max))):
+            return None
+        if np.dtype(tp).kind == 'f' and fractions.Fraction(float(tp(float(const)))) != const:
+            return None
+        cval = tp(int(const)) if np.dtype(tp).kind in 'iu' else tp(float(const))
     base = {'k': 'arithc', 'p': list(props), 'op': op, 'x': dict(zip('swf', (bool(tx[0]), tx[1], tx[2]))), 'side': side,
             'ois': ois, 'sizing': csizing, 'method': method, 'xm': {'r': xm[0], 'o': xm[1]}, 'c': wdy(const),
-            'route': 'operator', 'carrier': type(cval).__name__, 'agg': True}
+            'route': 'operator', 'carrier': ('np.' if ctype else '') + type(cval).__name__, 'agg': True}
     if extra:
         base.update(extra)
     try:
